@@ -182,9 +182,17 @@ def run(ctx):
     # ---- stream 3: step lists
     names = NAMES + ["nope", "", "HTML", "all_whitespace "]
     cases = []
+    # every list of up to 3 cleaner names (repeats included) x every string up to length 4 over {space, tab, _, a}
+    small = ["".join(t) for L in range(5) for t in itertools.product(" \t_a", repeat=L)]
+    combos = [(list(st), x) for L in range(4) for st in itertools.product(NAMES, repeat=L) for x in (small if L >= 2 else small[:40])]
+    if not thorough:
+        combos = [c for c in combos if len(c[0]) < 3] + rng.sample([c for c in combos if len(c[0]) == 3], 2500)
+    ctx.exhaustive["steps: lists of <=%d cleaner names x strings <=4 over {space,tab,_,a}" % (3 if thorough else 2)] = len(combos)
     for _ in range(400 if thorough else 120):
-        steps = [rng.choice(names) for _ in range(rng.choice([0, 1, 2, 2, 3, 4]))]
-        s = "".join(rng.choice(wide) for _ in range(rng.choice([0, 3, 8])))
+        combos.append(([rng.choice(names) for _ in range(rng.choice([0, 1, 2, 2, 3, 4]))],
+                       "".join(rng.choice(wide) for _ in range(rng.choice([0, 3, 8])))))
+    combos.append((["inline_whitespace", "underscores", "inline_whitespace"], "a __ b"))
+    for steps, s in combos:
         try:
             out = clean_text(s, steps)
             exp = f"(COk {E.s(out)})"
